@@ -320,3 +320,21 @@ Proof.
   unfold request_trace. destruct fw; try (unfold nethttp_chain; destruct ftl; [apply Hw; exact Hr|apply Hw; exact Hi]); try (apply Hs; exact Hi).
   exists []. reflexivity.
 Qed.
+
+(** * Mounting from an options value *)
+Theorem mounted_trace_is_request_trace fw ftl strict o :
+  mounted_trace mount fw ftl strict o = request_trace fw ftl (o_mws o) strict.
+Proof. unfold mounted_trace, mount. apply serve_first. Qed.
+
+(** what else the options carry is irrelevant: the chain is that of the middlewares *)
+Theorem mounted_trace_ignores_other_options fw ftl strict o o' :
+  o_mws o = o_mws o' -> mounted_trace mount fw ftl strict o = mounted_trace mount fw ftl strict o'.
+Proof. intro H. rewrite !mounted_trace_is_request_trace. rewrite H. reflexivity. Qed.
+
+(** storing the middlewares only next to the default error handler: with an error handler of the caller's an
+    authenticating middleware that answers itself no longer keeps the request from the handler *)
+Theorem mount_under_default_error_handler_refuted :
+  let o := {| o_mws := [Stop]; o_error_handler := true; o_base_url := false |} in
+  mounted_trace mount Chi false None o = [EMw 0]
+  /\ mounted_trace mount_under_default_error_handler Chi false None o = [EHandler].
+Proof. vm_compute. split; reflexivity. Qed.
